@@ -427,6 +427,17 @@ def r5(cx, rec):
     lensrc = show(ge[2])
     rec.site(P, sb, 'size guard %s' % show(ge)[:100])
     rec.need('get_message_length' in lensrc or 'length' in lensrc, 'size-guard-wrong-operand', P, sb, 'size guard does not test the length prefix')
+    # exact threshold: the smallest rejected length prefix is MAX_FRAME_SIZE + 1 (every frame up to the limit is decodable,
+    # nothing larger is buffered)
+    lc, lv = C07.lin(ge[2])
+    mxv = const_of(ge[3])[0]
+    if lc is not None and lv is not None and ge[1] in ('Gt', 'Ge'):
+        first_rejected = (mxv + 1 if ge[1] == 'Gt' else mxv) - lc
+        rec.need(first_rejected == mxv + 1, 'size-guard-threshold', P, sb,
+                 'the size guard rejects length prefixes from %d on, the frame limit is %d: frames the client itself can emit near the '
+                 'limit are refused (or larger ones accepted)' % (first_rejected, mxv))
+    else:
+        rec.violation('size-guard-threshold', P, sb, 'size guard %s is not of the form `length > MAX_FRAME_SIZE`' % show(ge)[:80])
     # bypass: paths to the dispatch that avoid the guard block
     disp = [s for s in P.switches() if P.cond(s)[0][0] == 'discr' and 'frame::MsgId' in P.cond(s)[0][2] and len(P.cond(s)[1]) >= 5][-1]
     e, ts, o = P.cond(disp)
@@ -545,7 +556,8 @@ ALLOW = {
 }
 for _m in ('bitfield::Bitfield', 'cancel::Cancel', 'handshake::Handshake', 'have::Have', 'piece::Piece', 'request::Request'):
     ALLOW['messages::%s::from/index/' % _m] = 'constant ranges inside the size returned by the same message\'s check (obligation 7b)'
-    ALLOW['messages::%s::from/copy_from_slice/' % _m] = 'array size equals range size (obligation 7b)'
+    if _m != 'bitfield::Bitfield':
+        ALLOW['messages::%s::from/copy_from_slice/' % _m] = 'array size equals range size (obligation 7b)'
 
 
 @TABLE.rule('7', 'K4', 'panic-site audit of everything reachable from the frame reader', floor=40)
